@@ -104,6 +104,9 @@ def _flow_run(case, seed):
     return out
 
 
+_MOVED = {}
+
+
 def _sampler_run(case, seed):
     import emcee
     import minipcn
@@ -143,6 +146,14 @@ def _sampler_run(case, seed):
         snap = {"x": env.to_np(res.x).copy(), "ll": env.to_np(res.log_likelihood).copy(), "lp": env.to_np(res.log_prior).copy()}
         if getattr(res, "log_evidence", None) is not None:
             snap["log_evidence"] = np.asarray(env.to_np(res.log_evidence)).copy()
+    # did the kernel move anything?  (a final coordinate that is not one of the proposal's draws)
+    handed = np.concatenate([h[0] for h in P.flow.handed]) if P.flow.handed else np.zeros((0, case["d"]))
+    w = env.width_of(res[0].x if isinstance(res, tuple) else res.x)
+    cast = np.float32 if w == "float32" else np.float64
+    hs = {tuple(r) for r in handed.astype(cast).astype(np.float64).tolist()}
+    xs = np.asarray(snap["x"], dtype=np.float64)
+    snap_moved = any(tuple(r) not in hs for r in xs.tolist())
+    _MOVED[id(gen)] = snap_moved
     return snap, gen
 
 
@@ -204,8 +215,9 @@ def run_case(case, ctx):
     if g1.bit_generator.state == fresh.bit_generator.state:
         ctx.fail(f"rng-not-consumed:{comp}", f"the generator supplied via {case['route']} to the {comp} sampler was never drawn from "
                                              f"(the sampler uses another random source)", case, route=case["route"])
-    elif case["n"] >= 6:
-        # (with a handful of particles two different streams can, rarely, produce the same run: all moves rejected, same resampling)
+    elif _MOVED.get(id(g1)):
+        # only meaningful if the kernel accepted at least one move in the first run: then another noise stream cannot reproduce it
+        # (if every move was rejected, two different streams legitimately return the same, unmoved, points)
         s3, _ = _sampler_run(case, case["seed2"])
         if s3 is not None and not _flat_equal(s1, s3):
             ctx.fail(f"seed-ignored:{comp}", f"a {comp} run with a different generator seed is identical", case)
